@@ -232,10 +232,14 @@ def expand_brackets(s: str) -> str:
         else:
             # Looks for first number*(
             m = BRACKET_RE.search(s)
-            if m:
+            # The factor must belong to this bracket, not to a later one.
+            if m and m.end() == start + 1:
                 factor = int(m.group('factor'))
                 matchstart = m.start('factor')
-                s = s[0:matchstart] + (factor - 1) * (s[start + 1:p] + ',') + s[start + 1:p] + s[p + 1:]
+                try:
+                    s = s[0:matchstart] + (factor - 1) * (s[start + 1:p] + ',') + s[start + 1:p] + s[p + 1:]
+                except OverflowError:
+                    raise ValueError(f"The factor {factor} is too large in '{s}'.")
             else:
                 raise ValueError(f"Failed to parse '{s}'.")
     return s
